@@ -22,7 +22,7 @@ type c08Event struct {
 	Batch   []c08Event `json:"batch,omitempty"`
 }
 
-var c08VariantNames = []string{"clean", "syntax", "unused", "undefined", "defglobal", "useglobal", "require", "requiremissing", "annoclass", "useannoclass", "dupkey"}
+var c08VariantNames = []string{"clean", "syntax", "unused", "undefined", "defglobal", "useglobal", "require", "requiremissing", "annoclass", "useannoclass", "dupkey", "empty"}
 
 // c08Variant renders content variant v for file index i of n files.
 func c08Variant(v string, i, n int, layout string) string {
@@ -50,6 +50,8 @@ func c08Variant(v string, i, n int, layout string) string {
 		return fmt.Sprintf("---@type Cls%d\nlocal v%d = {}\nprint(v%d.fa%d, v%d.nofield%d)\n", nxt, i, i, nxt, i, i)
 	case "dupkey":
 		return fmt.Sprintf("local t%d = { k = 1, k = 2 }\nprint(t%d == t%d)\n", i, i, i)
+	case "empty":
+		return "" // a file of zero bytes
 	}
 	return ""
 }
@@ -265,7 +267,7 @@ func runC08(c *Ctx) {
 		}
 	})
 	c.Finish("histories of 5-40 events (create/external change/delete with watched-file notifications, open, unsaved edit, save, close, batches) over 3-6 files whose content "+
-		"switches between 11 variants (clean, syntax error, unused local, undefined name, defines/uses a cross-file global, requires an existing/missing module, annotation "+
+		"switches between 12 variants (empty file, clean, syntax error, unused local, undefined name, defines/uses a cross-file global, requires an existing/missing module, annotation "+
 		"class defined/used, duplicate key); at every quiescent point the live client view and probe answers are compared with a fresh server on the same directory; while a "+
 		"buffer is dirty its file's view is compared with the buffer's own syntax errors. distinct_nontrivial = distinct (history prefix) states compared with a fresh server", 40)
 }
